@@ -713,7 +713,7 @@ func (x *Run) useContract(fr *Frame, st *State, con *Contract, args []Val, site 
 		if i := strings.LastIndexAny(tn, ".)"); i >= 0 {
 			tn = tn[i+1:]
 		}
-		for _, p := range []string{"Read", "Decode", "Unmarshal", "Scan", "UnPack"} {
+		for _, p := range []string{"Read", "Decode", "Unmarshal", "Scan", "UnPack", "LoadConfigure"} {
 			if strings.HasPrefix(tn, p) {
 				decoder = true
 			}
